@@ -62,6 +62,7 @@ type vfCfg struct {
 	Ed25519OtherPass bool     `json:"ed25519_other_pass,omitempty"` // the sealed Ed25519 CA file needs another passphrase than the primary
 	BadPrimary    bool        `json:"bad_primary,omitempty"` // sealed primary CA file decrypts (right passphrase) to a key the loader must reject (an Ed25519 key)
 	GroupsLDAP    bool        `json:"groups_ldap,omitempty"` // userinfo_sources.ldap configured (simulated directory)
+	GroupPrepend  string      `json:"group_prepend,omitempty"` // userinfo_sources.ldap.group_prepend
 	PublicLogs    bool        `json:"public_logs,omitempty"`
 	SyncDelay     string      `json:"sync_delay,omitempty"`
 	SyncInterval  string      `json:"sync_interval,omitempty"`
@@ -262,8 +263,8 @@ func (w *vfWorld) writeConfig() (string, error) {
 	}
 	fmt.Fprintf(&b, "  allowed_auth_backends_for_certs: %s\n", yamlList(c.CertBackends))
 	fmt.Fprintf(&b, "  allowed_auth_backends_for_webui: %s\n", yamlList(c.WebUIBackends))
-	fmt.Fprintf(&b, "  admin_users: [\"root\"]\n  admin_groups: [%q]\n", vfAdminGroup)
-	fmt.Fprintf(&b, "  automation_users: [\"auto1\", \"auto2\"]\n  automation_user_groups: [%q]\n  automation_admins: [\"autoadmin\"]\n", vfAutomationGroup)
+	fmt.Fprintf(&b, "  admin_users: [\"root\"]\n  admin_groups: [%q]\n", c.GroupPrepend+vfAdminGroup)
+	fmt.Fprintf(&b, "  automation_users: [\"auto1\", \"auto2\"]\n  automation_user_groups: [%q]\n  automation_admins: [\"autoadmin\"]\n", c.GroupPrepend+vfAutomationGroup)
 	fmt.Fprintf(&b, "  public_logs: %v\n", c.PublicLogs)
 	fmt.Fprintf(&b, "  disable_username_normalization: %v\n", c.DisableNorm)
 	fmt.Fprintf(&b, "  enable_local_totp: %v\n  enable_bootstrapotp: %v\n  allow_self_service_bootstrap_otp: %v\n", c.TOTP, c.BootstrapOTP, c.SelfService)
@@ -321,7 +322,11 @@ func (w *vfWorld) writeConfig() (string, error) {
 		b.WriteString("okta:\n  domain: \"sim\"\n  enable_2fa: true\n")
 	}
 	if c.GroupsLDAP {
+		if c.GroupPrepend != "" {
+			fmt.Fprintf(&b, "userinfo_sources:\n  ldap:\n    group_prepend: %q\n    bind_username: \"cn=km\"\n    bind_password: \"x\"\n    ldap_target_urls: \"ldaps://dir1.sim\"\n    user_search_base_dns: [\"ou=people,dc=sim\"]\n    user_search_filter: \"(uid=%%s)\"\n    group_search_base_dns: [\"ou=groups,dc=sim\"]\n    group_search_filter: \"(member=%%s)\"\n", c.GroupPrepend)
+		} else {
 		b.WriteString("userinfo_sources:\n  ldap:\n    bind_username: \"cn=km\"\n    bind_password: \"x\"\n    ldap_target_urls: \"ldaps://dir1.sim\"\n    user_search_base_dns: [\"ou=people,dc=sim\"]\n    user_search_filter: \"(uid=%s)\"\n    group_search_base_dns: [\"ou=groups,dc=sim\"]\n    group_search_filter: \"(member=%s)\"\n")
+		}
 	}
 	if c.VIP {
 		fmt.Fprintf(&b, "symantecvip:\n  enabled: true\n  cert_file: %q\n  key_file: %q\n", vfFixture("server.pem"), vfFixture("server.key"))
